@@ -73,6 +73,7 @@ class Env:
     self.exc_class = exc_class
     self.seen_entries = set()
     self.keep_entries = []
+    self.keep_alive = []
     self.seq_batches = []  # per op: sorted sequence ids of entries it created
     self.own_violations = []
 
@@ -148,6 +149,11 @@ def apply_op(env: Env, op):
   if k == 'pickle':
     new = pickle.loads(pickle.dumps(cfg))
     env.cfgs.append(new)
+    # unpickled entries are copies of existing ones (same sequence ids)
+    for lst in new.__argument_history__.values():
+      for e in lst:
+        env.seen_entries.add(id(e))
+        env.keep_alive.append(e)
     return C.canon((cfg, new))
   if k == 'eq':
     other = env.cfg(op, 'd')
